@@ -1,9 +1,144 @@
 import PersimVerif.Drv.Util
-/-! driver commands: Plot (stub until the model lands) -/
+import PersimVerif.Model.Plot
+/-!
+  driver commands for C20 (model at `Rat`; `cast` = IEEE round-to-nearest-even to binary32):
+
+  `plot.dgms <single T|F> <dgms> <plot_only|none> <title|none> <xy_range|none> <labels> <diagonal> <lifetime> <legend> [old]`
+      `<labels>` = `none` | a string token | a list of string tokens
+  `plot.match <bn|ws|bnold|wsold> <c> <s> <dgm1> <dgm2> <rows [[i,j,d],…]> <labels>`
+  `plot.land.exact <critical pairs per depth> <depth_range|none>`
+  `plot.land.approx <start> <stop> <values per depth> <depth_range|none>`
+
+  answer: `[[artist,…],[xlo,xhi],[ylo,yhi],xlabel|none,ylabel|none,title|none,T|F]`, an artist being
+  `[scatter,<ax>,[[x,y],…],label]` or `[line,<ax>,[x,…],[y,…],<style>,label|none]`; `err:ValueError`, `err:IndexError`.
+-/
 namespace PersimVerif.Drv.Plot
-open PersimVerif Val PersimVerif.Drv
+open PersimVerif Val PersimVerif.Drv PersimVerif.Plot
+
+def pow2 (e : Int) : Rat :=
+  if 0 ≤ e then ((2 ^ e.toNat : Nat) : Rat) else 1 / ((2 ^ (-e).toNat : Nat) : Rat)
+
+/-- round half to even of a non-negative rational -/
+def roundHalfEven (x : Rat) : Int :=
+  let f := x.floor
+  let rem := x - (f : Rat)
+  if rem < 1/2 then f
+  else if 1/2 < rem then f + 1
+  else if f % 2 == 0 then f else f + 1
+
+/-- IEEE-754 binary32 round-to-nearest-even of a rational (finite range only: the harness never
+    sends magnitudes near 2^128) -/
+def f32 (r : Rat) : Rat :=
+  if r == 0 then 0 else
+  let a : Rat := if r < 0 then -r else r
+  let e0 : Int := (a.num.natAbs.log2 : Int) - (a.den.log2 : Int)
+  let e1 : Int := if a < pow2 e0 then e0 - 1 else if pow2 (e0 + 1) ≤ a then e0 + 1 else e0
+  let e : Int := if e1 < -126 then -126 else e1
+  let q := pow2 (e - 23)
+  let n := roundHalfEven (a / q)
+  let v := (n : Rat) * q
+  if r < 0 then -v else v
+
+def axName : Axes → String
+  | .given => "given"
+  | .current => "current"
+
+def styleName : Style → String
+  | .horizon => "horizon"
+  | .diagonal => "diagonal"
+  | .infLine => "infline"
+  | .matchMax => "matchmax"
+  | .matchOther => "matchother"
+  | .wass => "wass"
+  | .landscape => "landscape"
+
+def ofArtist : Artist Rat → Val
+  | .scatter ax pts label => .list [.str "scatter", .str (axName ax), ofRatPairs pts, .str label]
+  | .line ax xs ys st label =>
+    .list [.str "line", .str (axName ax), ofRats xs, ofRats ys, .str (styleName st),
+           match label with | some l => .str l | none => .str "none"]
+
+def optStr : Option String → Val
+  | some s => .str s
+  | none => .str "none"
+
+def ofFig (f : Fig Rat) : Val :=
+  .list [.list (f.artists.map ofArtist), ofRats [f.xlim.1, f.xlim.2], ofRats [f.ylim.1, f.ylim.2],
+         optStr f.xlabel, optStr f.ylabel, optStr f.title, ofBool f.legend]
+
+def ofErr : Err → Val
+  | .value => err "ValueError"
+  | .index => err "IndexError"
+
+def ofRes : Except Err (Fig Rat) → Val
+  | .ok f => ofFig f
+  | .error e => ofErr e
+
+def labels? : Val → Option Labels
+  | .str "none" => some .default
+  | .str s => some (.one s)
+  | .list xs => (xs.mapM asStr?).map .many
+  | _ => none
+
+def range4? : Val → Option (Option (Rat × Rat × Rat × Rat))
+  | .str "none" => some none
+  | .list [a, b, c, d] => do pure (some (← asRat? a, ← asRat? b, ← asRat? c, ← asRat? d))
+  | _ => none
+
+def row? : Val → Option (Row Rat)
+  | .list [i, j, d] => do pure (← asInt? i, ← asInt? j, ← asRat? d)
+  | _ => none
+
+def dgmsOp (old : Bool) (sg ds po ti xy lb dg lf lg : Val) : Option Val := do
+  let single ← asBool? sg
+  let dgms ← listOf? (dgmOf? optRat?) ds
+  -- births are finite in the model
+  let dgms ← dgms.mapM fun d => d.mapM fun p => match p.1 with
+    | some b => some (b, p.2)
+    | none => none
+  let arg : DgmsArg Rat ← if single then (match dgms with | [d] => some (.single d) | _ => none)
+                          else some (.many dgms)
+  let o : Opts Rat := {
+    plotOnly := ← optOf? (listOf? asInt?) po
+    title := ← optOf? asStr? ti
+    xyRange := ← range4? xy
+    labels := ← labels? lb
+    diagonal := ← asBool? dg
+    lifetime := ← asBool? lf
+    legend := ← asBool? lg }
+  pure (ofRes ((if old then plotDiagramsOld else plotDiagrams) f32 arg o))
+
+def depthRange? (v : Val) : Option (Option (List Nat)) := optOf? (listOf? asNat?) v
 
 def handle : Handler
+  | "plot.dgms", [sg, ds, po, ti, xy, lb, dg, lf, lg] => dgmsOp false sg ds po ti xy lb dg lf lg
+  | "plot.dgms", [sg, ds, po, ti, xy, lb, dg, lf, lg, .str "old"] => dgmsOp true sg ds po ti xy lb dg lf lg
+  | "plot.match", [.str kind, c, s, d1, d2, rows, lb] => do
+    let c ← asRat? c
+    let s ← asRat? s
+    let d1 ← ratDgm? d1
+    let d2 ← ratDgm? d2
+    let rows ← listOf? row? rows
+    let lb ← listOf? asStr? lb
+    match kind with
+    | "bn" => pure (ofRes (bottleneckMatching f32 c s d1 d2 rows lb))
+    | "bnold" => pure (ofRes (bottleneckMatchingOld f32 c s d1 d2 rows lb))
+    | "ws" => pure (ofRes (wassersteinMatching f32 c s d1 d2 rows lb))
+    | "wsold" => pure (ofRes (wassersteinMatchingOld f32 c s d1 d2 rows lb))
+    | _ => none
+  | "plot.land.exact", [crit, dr] => do
+    let crit ← listOf? ratDgm? crit
+    let dr ← depthRange? dr
+    pure (.list ((landscapeExactSimple crit dr).map ofArtist))
+  | "plot.land.approx", [a, b, vals, dr] => do
+    let a ← asRat? a
+    let b ← asRat? b
+    let vals ← listOf? (listOf? asRat?) vals
+    let dr ← depthRange? dr
+    pure (.list ((landscapeApproxSimple (fun n => (n : Rat)) a b vals dr).map ofArtist))
+  | "plot.f32", [x] => do
+    let x ← asRat? x
+    pure (.num (f32 x))
   | _, _ => none
 
 end PersimVerif.Drv.Plot
